@@ -15,7 +15,7 @@ import numpy as np
 
 import sim  # noqa: F401
 from sim import build
-from sim.core import attempt, exc_tag
+from sim.core import attempt, deep_tier, exc_tag
 from sim.oracle import arrays_equal, first_diff, missed_tuple, snap, snap_diff
 
 PROPERTY = "C03"
@@ -120,9 +120,13 @@ def gen_deliveries(rng, mode, idxs, entries, ndim, first_epoch, keep_missed):
 def generate(rng, seed, part):
     cfg = gen_config(rng)
     ndim = cfg["hist"]["ndim"]
+    deep = deep_tier(rng)
     n = rng.choice([0, 1, 2, 3, 5, 8, 12, 20, 30])
-    entries = gen_entries(rng, cfg, n)
     k = rng.randint(2, 4)
+    if deep:
+        n = rng.choice([40, 80, 150, 200])
+        k = rng.randint(3, 6)
+    entries = gen_entries(rng, cfg, n)
     modes = ["batch"] + [rng.choice(["single", "chunks", "mixed", "batch"]) for _ in range(k - 1)]
     rng.shuffle(modes)
     cfg["replicas"] = modes
